@@ -25,7 +25,8 @@ EXPLANATION = (
     "last-yielded test and that variable is redefined from ritem.dt on every path to the back edge. C10.HEAP: "
     "after an exhausted member the heap is repaired (heappop under `genlist[0] is self`, else remove+heapify); "
     "heapreplace(L, x) only under `L and L[0] is x`, directly after advance_iterator(x). C10.STOPITER: StopIteration of a member never escapes _genitem (exception-escape analysis) and the heaps hold only _genitem objects. C10.SORT: date lists "
-    "are sorted before being merged. C10.LEN: every generator exit publishes the number of yielded items.")
+    "are sorted before being merged. C10.LEN: every generator exit publishes the number of yielded items."
+    " C10.STALE: _invalidate_cache gives a generation token (a counter incremented / a fresh object) a new value on every path; in every class with invalidating mutators each store to _len, _cache_complete or _cache_gen outside __init__/_invalidate_cache is dominated by a comparison of a token captured before the generator's first yield with its current value, with no yield between test and store - an iterator overtaken by a mutation publishes nothing.")
 ASSUMPTIONS = [
     "heapq functions and list.sort behave as documented",
     "member iterators are themselves strictly increasing (C01)",
